@@ -1,3 +1,5 @@
-//! placeholder, filled in below
+//! C08 harnesses live in h_c07.rs (shared seed-plumbing scaffolding).
 use crate::Src;
-pub fn by_name(_name: &str) -> Option<fn(&mut Src)> { None }
+pub fn by_name(_name: &str) -> Option<fn(&mut Src)> {
+    None
+}
